@@ -1580,15 +1580,15 @@ theorem mkDevsFrom_indexed' (f : Nat → Report → Dev) (hf : ∀ i r, (f i r).
   | cons r rs ih => intro b; exact ⟨hf b r, ih (b + 1)⟩
 
 
-theorem writeLoop_wrapping_ok (now : Nat) (addrs : List Nat) (hnow : now < U64) (devs : List Dev)
-    (hrx : ∀ d ∈ devs, d.rxTime < U64) : ∃ ws, writeLoop .wrapping now addrs devs = (ws, .ok ()) := by
+theorem writeLoop_total (m : Mode) (now : Nat) (addrs : List Nat) (hnow : now < U64) (devs : List Dev)
+    (hrx : ∀ d ∈ devs, d.rxTime < U64) : ∃ ws, writeLoop m now addrs devs = (ws, .ok ()) := by
   induction devs with
   | nil => exact ⟨[], rfl⟩
   | cons d ds ih =>
     rcases ih (fun x hx => hrx x (List.mem_cons_of_mem _ hx)) with ⟨ws, hws⟩
     unfold writeLoop
     by_cases hdc : d.dc = true
-    · rw [if_pos hdc, offsetI64_wrapping d.rxTime now (hrx d (List.mem_cons_self ..)) hnow]
+    · rw [if_pos hdc, offsetI64_value m d.rxTime now (hrx d (List.mem_cons_self ..)) hnow]
       simp only [hws]
       exact ⟨_, rfl⟩
     · rw [if_neg hdc]; exact ⟨ws, hws⟩
@@ -1622,15 +1622,15 @@ theorem timesOk_latchOne (i : Nat) (r : Report)
   · exact ⟨ht.1, ht.2.2.2, ht.2.1, ht.2.2.1⟩
   · exact ⟨hz, hz, hz, hz⟩
 
-theorem configureDc_no_panic_wrapping (now : Nat) (rs : List Report) (ws : List Write) (w : String)
+theorem configureDc_no_panic (m : Mode) (now : Nat) (rs : List Report) (ws : List Write) (w : String)
     (htimes : ∀ r ∈ rs, r.t0 < U32 ∧ r.t1 < U32 ∧ r.t2 < U32 ∧ r.t3 < U32)
     (hnow : now < U64) (hrx : ∀ r ∈ rs, r.rx < U64) :
-    configureDc .wrapping now rs ≠ (ws, .panic w) := by
+    configureDc m now rs ≠ (ws, .panic w) := by
   intro h
   unfold configureDc at h
-  cases ha : assignParentRelationships .wrapping (latch rs) with
+  cases ha : assignParentRelationships m (latch rs) with
   | panic w' =>
-    refine assign_no_panic .wrapping (latch rs) w' ?_
+    refine assign_no_panic m (latch rs) w' ?_
       (mkDevsFrom_indexed' _ (fun i r => (latchOne_fields i r).1) rs 0) ha
     intro d hd
     rcases mkDevsFrom_mem _ _ _ d hd with ⟨i, r, hr, rfl⟩
@@ -1639,7 +1639,7 @@ theorem configureDc_no_panic_wrapping (now : Nat) (rs : List Report) (ws : List 
   | ok out =>
     rw [ha] at h
     simp only at h
-    have hidk := assignLoop_idk .wrapping (latch rs) [] 0 out (assign_ok_loop _ _ _ ha)
+    have hidk := assignLoop_idk m (latch rs) [] 0 out (assign_ok_loop _ _ _ ha)
     simp only [List.nil_append] at hidk
     cases hf : (out.find? (fun d => d.dc)).map (·.index) with
     | none => rw [hf] at h; simp at h
@@ -1657,7 +1657,7 @@ theorem configureDc_no_panic_wrapping (now : Nat) (rs : List Report) (ws : List 
         split
         · exact hrx r hr
         · simp only; decide
-      rcases writeLoop_wrapping_ok now (rs.map (·.addr)) hnow out hrx' with ⟨ws', hws⟩
+      rcases writeLoop_total m now (rs.map (·.addr)) hnow out hrx' with ⟨ws', hws⟩
       rw [hws] at h
       simp at h
 
